@@ -97,16 +97,18 @@ pub(crate) mod kani_verif {
             bytes[MAX_HASH_SIZE - 1] = (i as u8) ^ 0x5a;
             let v = ArrayVec::from_array_len(bytes, MAX_HASH_SIZE);
             a.push(&v); // capacity p(32, w): a smaller array would panic here
-            assert!(a.as_slice().len() == i + 1, "push appends one element");
             i += 1;
         }
         let s = a.as_slice();
         assert!(s.len() == n_chains, "p pushes give p elements");
-        i = 0;
-        while i < n_chains {
+        // first, middle and last element (every element: c02_lmots_kc_*, thorough)
+        let probes = [0usize, n_chains / 2, n_chains - 1];
+        let mut k = 0;
+        while k < 3 {
+            let i = probes[k];
             assert!(s[i].len() == MAX_HASH_SIZE && s[i][0] == i as u8 && s[i][1] == (i >> 8) as u8 && s[i][MAX_HASH_SIZE - 1] == (i as u8) ^ 0x5a,
                 "element i is the i-th pushed value");
-            i += 1;
+            k += 1;
         }
         kani::cover!(true, "reachable");
     }
